@@ -113,7 +113,9 @@ def recover_rational(x):
     if x == int(x) and abs(x) < 2 ** 53:
         return Fraction(int(x))
     f = Fraction(x)
-    for lim in (10 ** 3, 10 ** 6, 10 ** 9):
+    # NOTE: denominators up to 10**9 would "recover" any irrational double (a convergent with q ~ 1e9 is
+    # within half an ulp); 10**6 leaves an error of ~1e-12, far above the rounding of a genuine rational.
+    for lim in (10 ** 3, 10 ** 6):
         g = f.limit_denominator(lim)
         if float(g) == x:
             return g
